@@ -91,24 +91,18 @@ pub fn check_api(f: &Fun) -> Check {
             let pos = u2.iter().position(|x| *x == q).unwrap();
             for (name, h, fun_t) in [("model", &m, Fun::new(mt.clone(), uni.clone()).over(&u2)), ("f", &hf, f.over(&u2))] {
                 let imp = fun_t.implies(&TT::var(u2.len(), pos));
-                let want = if imp.is_true() {
-                    (true, true)
-                } else if imp.is_false() {
-                    (true, false)
-                } else {
-                    (false, false)
-                };
+                // the property fixes one answer only: (true, true) exactly when v is forced true
+                let forced = imp.is_true();
                 let got = env.infer(Rc::clone(h), q);
-                if got != want {
+                if (got == (true, true)) != forced {
                     return Err(v(format!(
-                        "infer({}, {}) = {:?} but the {} {} variable {} (expected {:?})",
+                        "infer({}, {}) = {:?} but the {} {} variable {} to be true",
                         name,
                         q,
                         got,
                         name,
-                        if want == (true, true) { "forces" } else { "does not force" },
-                        q,
-                        want
+                        if forced { "forces" } else { "does not force" },
+                        q
                     )));
                 }
             }
